@@ -89,6 +89,30 @@ pub fn chasers() -> Vec<Chaser> {
         c.reach_stack = match k { 0 | 2 => 32, 3 => 31, _ => 0 };
         v.push(c);
     }
+    // g GOSUB frames, then a chain of k nested function calls: every route to the 33rd frame
+    for g in [29usize, 30, 31, 32] {
+        for k in [1usize, 2, 3, 4] {
+            let mut lines = vec![
+                "1 DEF FNA(X) = X + 1".to_string(),
+                "2 DEF FNB(X) = FNA(X) + 1".to_string(),
+                "3 DEF FNC(X) = FNB(X) + 1".to_string(),
+                "4 DEF FND(X) = FNC(X) + 1".to_string(),
+                "10 GOSUB 100".to_string(),
+                "20 END".to_string(),
+                format!("100 N = N + 1 : IF N < {} THEN GOSUB 100", g),
+                format!("110 PRINT {}(N)", ["FNA", "FNB", "FNC", "FND"][k - 1]),
+                "120 RETURN".to_string(),
+            ];
+            if g == 32 && k == 1 {
+                lines.push("115 GOSUB 120".to_string());
+            }
+            let overflow = g + k > 32;
+            let mut c = ch("gosub-then-fn", &[], "RUN", if overflow { Some(STACK) } else if g == 32 && k == 1 { Some(STACK) } else { None });
+            c.lines = lines;
+            c.reach_stack = g;
+            v.push(c);
+        }
+    }
     // nested FORs over distinct variables
     for n in [32usize, 33] {
         let mut lines = vec![];
